@@ -1,5 +1,6 @@
 """C14 - an exception raised by a key comparison leaves the container
 intact (fault enumeration at run time)."""
+from ..harness import safe_repr as _srepr  # noqa: E402
 import gc
 
 from .. import families, gen, harness, hist, inject, ledger
@@ -490,7 +491,7 @@ def run_container(fam, kind, impl, rng, rec, all_n, ci):
             before = model_contents(m, is_mapping)
             snap0 = W.led.snapshot([(c, is_mapping, is_tree)]) \
                 if impl == 'c' else None
-            rec.journal(repr((desc, hops, name, ki, n, N)))
+            rec.journal(_srepr((desc, hops, name, ki, n, N)))
             inject.arm(fail_at=n)
             exc = None
             try:
